@@ -50,7 +50,9 @@ func (s *Batcher) BatchChan() <-chan extractor.InputBatch {
 
 // SetSourceCount sets the number of source files
 func (s *Batcher) setSourceCount(count int) {
+	s.mux.Lock()
 	s.sourceCount = count
+	s.mux.Unlock()
 }
 
 // StartFileReading registers a given source as being read in the global read-pool
